@@ -168,6 +168,63 @@ theorem reset_sound (s : Store) : stepFails s .reset (modelObs s .reset) = [] :=
 theorem validate_sound (s : Store) (p : AnyParams) :
     stepFails s (.validate p) (modelObs s (.validate p)) = [] := rfl
 
+/-! ## direct updates (message server without the router's `ValidateBasic` pre-check) -/
+
+theorem updateParams_nonauth {P : Type} (validate : P → Res Unit) (norm : P → P) (sender : String) (q : P)
+    (h : sender ≠ authority) : ∃ e, updateParams validate norm authority sender q = .error e := by
+  unfold updateParams
+  cases validate q with
+  | error e => exact ⟨e, rfl⟩
+  | ok _ => exact ⟨.reject, by simp [h]⟩
+
+theorem stepUpdate_nonauth (s : Store) (sender : String) (p : AnyParams) (h : sender ≠ authority) :
+    ∃ e, stepUpdate s sender p = .error e := by
+  cases p with
+  | coinswap q => obtain ⟨e, he⟩ := updateParams_nonauth coinswapValidate id sender q h; exact ⟨e, by simp [stepUpdate, he, Except.map]⟩
+  | farm q => obtain ⟨e, he⟩ := updateParams_nonauth farmValidate farmNorm sender q h; exact ⟨e, by simp [stepUpdate, he, Except.map]⟩
+  | htlc q => obtain ⟨e, he⟩ := updateParams_nonauth htlcValidate id sender q h; exact ⟨e, by simp [stepUpdate, he, Except.map]⟩
+  | service q => obtain ⟨e, he⟩ := updateParams_nonauth serviceValidate id sender q h; exact ⟨e, by simp [stepUpdate, he, Except.map]⟩
+  | token q => obtain ⟨e, he⟩ := updateParams_nonauth tokenValidate id sender q h; exact ⟨e, by simp [stepUpdate, he, Except.map]⟩
+
+theorem applyOp_nonauth (s : Store) (sender : String) (p : AnyParams) (h : sender ≠ authority) :
+    applyOp s ⟨sender, p⟩ = s := by
+  obtain ⟨e, he⟩ := stepUpdate_nonauth s sender p h
+  simp [applyOp, he]
+
+/-- the handler-level path raises no clause either: for the authority it is the transaction path,
+    for anyone else a rejection that stores nothing -/
+theorem updateDirect_sound (s : Store) (hs : StoreValid s) (sender : String) (p : AnyParams) :
+    stepFails s (.updateDirect sender p) (modelObs s (.updateDirect sender p)) = [] := by
+  by_cases h : sender = authority
+  · have e : modelObs s (.updateDirect sender p) = modelObs s (.update sender p) := by
+      simp [modelObs, stepUpdateDirect, h]
+    rw [e]
+    exact update_sound s hs sender p
+  · have hpre := storeValid_getMod hs (modOf p)
+    simp only [stepFails, modelObs, modOf_getMod, ne_eq, not_true_eq_false, if_false,
+      applyOp_nonauth s sender p h, stepUpdateDirect, h, not_false_eq_true, if_true, resWord]
+    have := updateFails_refused (getMod s (modOf p)) p sender "rej" (by decide) hpre
+    simp [untagged, this]
+
+theorem setMod_applyOp (s : Store) (sender : String) (p : AnyParams) :
+    setMod s (getMod (applyOp s ⟨sender, p⟩) (modOf p)) = applyOp s ⟨sender, p⟩ := by
+  cases p with
+  | coinswap q =>
+    cases hu : updateParams coinswapValidate id authority sender q <;>
+      simp [applyOp, stepUpdate, hu, Except.map, getMod, setMod, modOf]
+  | farm q =>
+    cases hu : updateParams farmValidate farmNorm authority sender q <;>
+      simp [applyOp, stepUpdate, hu, Except.map, getMod, setMod, modOf]
+  | htlc q =>
+    cases hu : updateParams htlcValidate id authority sender q <;>
+      simp [applyOp, stepUpdate, hu, Except.map, getMod, setMod, modOf]
+  | service q =>
+    cases hu : updateParams serviceValidate id authority sender q <;>
+      simp [applyOp, stepUpdate, hu, Except.map, getMod, setMod, modOf]
+  | token q =>
+    cases hu : updateParams tokenValidate id authority sender q <;>
+      simp [applyOp, stepUpdate, hu, Except.map, getMod, setMod, modOf]
+
 /-- the monitor's tracked store after a model observation is the model's next store -/
 theorem track_model (s : Store) (op : MonOp) : track s op (modelObs s op) = modelNext s op := by
   cases op with
@@ -175,6 +232,9 @@ theorem track_model (s : Store) (op : MonOp) : track s op (modelObs s op) = mode
   | validate p => rfl
   | genesis p => rfl
   | battery m => rfl
+  | updateDirect sender p =>
+    simp only [track, modelObs, modelNext, modOf_getMod, if_true]
+    exact setMod_applyOp s sender p
   | update sender p =>
     simp only [track, modelObs, modelNext, modOf_getMod, if_true]
     cases p with
@@ -198,6 +258,7 @@ theorem modelNext_valid (s : Store) (hs : StoreValid s) (op : MonOp) : StoreVali
   cases op with
   | reset => exact defaults_valid
   | update sender p => exact applyOp_preserves_valid s ⟨sender, p⟩ hs
+  | updateDirect sender p => exact applyOp_preserves_valid s ⟨sender, p⟩ hs
   | validate p => exact hs
   | genesis p => exact hs
   | battery m => exact hs
@@ -486,6 +547,7 @@ theorem monitor_sound (s : Store) (hs : StoreValid s) (op : MonOp) :
   | reset => simp [reset_sound]
   | validate p => simp [validate_sound]
   | update sender p => simp [update_sound s hs]
+  | updateDirect sender p => simp [updateDirect_sound s hs]
   | genesis p => simp [genesis_sound]
   | battery m => exact battery_sound s hs m
 
@@ -495,6 +557,7 @@ theorem monitor_sound_strict (s : Store) (hs : StoreValid s) (op : MonOp)
   | reset => exact reset_sound s
   | validate p => exact validate_sound s p
   | update sender p => exact update_sound s hs sender p
+  | updateDirect sender p => exact updateDirect_sound s hs sender p
   | genesis p => exact genesis_sound s p
   | battery m => exact absurd rfl (h m)
 
